@@ -294,6 +294,8 @@ Qed.
 (* ------------------------------------------------------------------ *)
 (** * The round trip *)
 
+Opaque build.
+
 (** For every length vector the decoder accepts (exactly one used symbol, or a
     Kraft-complete code with lengths <= 15 — this includes both simple-code
     shapes) and every used symbol: decoding the symbol's canonical code word
@@ -330,7 +332,7 @@ Proof.
         eapply Forall_impl; [|exact Hb]. cbn. intros; lia. }
       change (2 ^ (15 - 0)) with 32768 in Hfull. lia. }
     rewrite Hrest, app_nil_r in Hi. subst pre.
-    destruct (find_codes_from s items 0 (ex_intro _ _ Hin)) as (a & l' & b & Ea & Ef).
+    destruct (find_codes_from s items 0 (ex_intro _ (nth (Z.to_nat s) lens 0) Hin)) as (a & l' & b & Ea & Ef).
     unfold lookup_code. rewrite Ef. cbn [snd]. rewrite Z.add_0_l.
     specialize (Hdec a l' s b rest Ea). rewrite Z.sub_0_r in Hdec. exact Hdec.
 Qed.
@@ -343,7 +345,7 @@ Proof.
   destruct (lens_items lens) as [|[l0 s0] [|it2 tl]] eqn:Ei.
   - unfold kraft_sum in Hk. rewrite Ei in Hk. discriminate.
   - eauto.
-  - rewrite Hk. cbn. eauto.
+  - rewrite Hk. change (32768 =? 32768) with true. cbv iota. eauto.
 Qed.
 
 (** The textbook recurrence: consecutive code words differ by +1 followed by a
@@ -359,3 +361,5 @@ Proof.
   replace (q * wt l1 + wt l1) with ((q + 1) * 2 ^ (l2 - l1) * wt l2) by (rewrite E; ring).
   now rewrite Z.div_mul by lia.
 Qed.
+
+Transparent build.
